@@ -361,7 +361,7 @@ func runMdOut(c Case, emit Emitter) {
 					if r2 != "ok" {
 						conv = "re-" + r2
 					}
-					stable = r2 == "ok" && md2 == md
+					stable = r2 == "ok" && mdoNormMd(md2) == mdoNormMd(md)
 				}
 			}
 			emit(Ev{"ev": "step", "case": c.ID, "op": "export", "body": op["body"], "opts": o, "api": api, "co": co, "origin": origin,
@@ -373,4 +373,32 @@ func runMdOut(c Case, emit Emitter) {
 	}
 }
 
-var _ = strings.TrimSpace
+// mdoNormMd removes differences of insignificant white space before the two exports are compared as strings:
+// trailing spaces, up to three leading spaces, repeated spaces and repeated blank lines outside code fences, blank lines at the ends.
+func mdoNormMd(md string) string {
+	var out []string
+	fence := false
+	for _, l := range strings.Split(md, "\n") {
+		l = strings.TrimRight(l, " \t\r")
+		if strings.HasPrefix(strings.TrimLeft(l, " "), "```") {
+			fence = !fence
+		}
+		if !fence {
+			t := strings.TrimLeft(l, " ")
+			if len(l)-len(t) < 4 {
+				l = t
+			}
+			for strings.Contains(l, "  ") {
+				l = strings.ReplaceAll(l, "  ", " ")
+			}
+			if l == "" && (len(out) == 0 || out[len(out)-1] == "") {
+				continue
+			}
+		}
+		out = append(out, l)
+	}
+	for len(out) > 0 && out[len(out)-1] == "" {
+		out = out[:len(out)-1]
+	}
+	return strings.Join(out, "\n")
+}
